@@ -11,6 +11,7 @@ import FendModel.Proofs.BigRatField
 import FendModel.Proofs.BigRatPow
 import FendModel.Proofs.BigRatCmp
 import FendModel.Proofs.Complex
+import FendModel.Proofs.ComplexTree
 import FendModel.Model.Pinned
 
 namespace Fend.C01
@@ -156,6 +157,13 @@ theorem complex_neg_conj (c : Cx) :
     (BigRat.valQ (Cx.neg c).re = - BigRat.valQ c.re ∧ BigRat.valQ (Cx.neg c).im = - BigRat.valQ c.im) ∧
     (BigRat.valQ (Cx.conj c).re = BigRat.valQ c.re ∧ BigRat.valQ (Cx.conj c).im = - BigRat.valQ c.im) :=
   ⟨Cx.neg_val c, Cx.conj_val c⟩
+
+/-- THE complex statement of C01: for every expression tree over + - * / unary minus and conjugate whose literals a + bi have
+well-formed rational parts, evaluation with the modelled `Exact<Complex>` operations yields the tree's value in Q(i)
+(real and imaginary part), and the only error is `divideByZero`, raised exactly when some divisor is 0 + 0i -/
+theorem complex_tree_exact (e : Cx.CExpr) (hl : Cx.LeavesOKC e) :
+    (∀ z, Cx.denoteC e = some z → ∃ r, Cx.evalC e = .ok r ∧ (BigRat.valQ r.re, BigRat.valQ r.im) = z ∧ Cx.OKC r) ∧
+    (Cx.denoteC e = none → Cx.evalC e = .error .divideByZero) := Cx.evalC_spec e hl
 
 -- non-vacuity: (1/2 + 3i) and (0/5 + 0i) are well-formed operands (the second is the zero divisor)
 example : Cx.OKC ⟨⟨false, .small 1, .small 2⟩, ⟨false, .small 3, .small 1⟩⟩ ∧ Cx.OKC ⟨⟨false, .small 0, .small 5⟩, ⟨true, .large [0, 0], .small 1⟩⟩ := by
